@@ -1,6 +1,6 @@
 // Replay / recording driver for the runtime containers of eqlog-runtime (C08, C14, C18).
 //
-// usage: rt-driver <wbt|pt|topo> <ops.ndjson> <trace.ndjson>
+// usage: rt-driver <wbt|pt|topo|uf> <ops.ndjson> <trace.ndjson>
 //
 // Every input line is one case (an operation sequence or a graph) produced by TLC from the
 // corresponding specification or by tools/gen_ops.py; the output is one ndjson event per executed
@@ -10,6 +10,7 @@
 
 mod pt;
 mod topo;
+mod uf;
 mod wbt;
 
 use std::io::{BufRead, BufReader, BufWriter, Write};
@@ -17,7 +18,7 @@ use std::io::{BufRead, BufReader, BufWriter, Write};
 fn main() {
     let args: Vec<String> = std::env::args().collect();
     if args.len() != 4 {
-        eprintln!("usage: rt-driver <wbt|pt|topo> <ops.ndjson> <trace.ndjson>");
+        eprintln!("usage: rt-driver <wbt|pt|topo|uf> <ops.ndjson> <trace.ndjson>");
         std::process::exit(2);
     }
     let input = BufReader::new(std::fs::File::open(&args[2]).expect("open ops"));
@@ -35,6 +36,7 @@ fn main() {
             "wbt" => wbt::run_case(&case, &mut buf),
             "pt" => pt::run_case(&case, &mut buf),
             "topo" => topo::run_case(&case, &mut buf),
+            "uf" => uf::run_case(&case, &mut buf),
             _ => panic!("unknown kind"),
         }));
         for l in &buf {
